@@ -88,7 +88,7 @@ def hvFast : List Rat → List Vec → Rat
 /-- lower corners of the unit cells of the box `[0,d₀) × [0,d₁) × …` -/
 def grid : List Nat → List Vec
   | [] => [[]]
-  | d :: ds => (List.range d).flatMap (fun c => (grid ds).map (fun v => (c : Rat) :: v))
+  | d :: ds => (List.range d).flatMap (fun (c : Nat) => (grid ds).map (fun v => (c : Rat) :: v))
 
 /-- number of unit cells of `[0,dims)` whose lower corner is weakly dominated by a point -/
 def cellCount (dims : List Nat) (pts : List Vec) : Nat :=
@@ -112,15 +112,27 @@ def subVec : Vec → Vec → Vec
 def shift (ref : Vec) (front : List Vec) : List Vec :=
   if ref.any (fun r => r != 0) then front.map (fun p => subVec p ref) else front
 
+def insertByKey (key : Nat → Rat) (a : Nat) : List Nat → List Nat
+  | [] => [a]
+  | b :: l => if key a ≤ key b then a :: b :: l else b :: insertByKey key a l
+
+/-- stable insertion sort (elements are inserted from the right, each in front of the first
+element whose key is not smaller) -/
+def sortByKey (key : Nat → Rat) (ids : List Nat) : List Nat := ids.foldr (insertByKey key) []
+
 /-- `sortByDimension`: `decorated.sort()` on `(cargo[i], node)` tuples.  Nodes with equal
 `cargo[i]` compare as equivalent (`Node.__lt__` is `all(cargo < other.cargo)`, false when
 one coordinate ties), timsort is stable, so this is a stable sort on `cargo[i]`. -/
 def sortByDim (cargo : List Vec) (i : Nat) (ids : List Nat) : List Nat :=
-  ids.mergeSort (fun a b => decide (co (cargo.getD a []) i ≤ co (cargo.getD b []) i))
+  sortByKey (fun a => co (cargo.getD a []) i) ids
 
-/-- `preProcess`: list `i` of the multi-list = the nodes sorted by dimension `i`, each sort
-applied to the result of the previous one -/
-def preOrders (cargo : List Vec) (m : Nat) : List (List Nat) :=
+/-- `preProcess`: list `i` of the multi-list = the nodes sorted by dimension `i`, each (stable)
+sort applied to the result of the previous one.
+
+`topDown = true` (the code after fix `ecd8f06`): `for i in reversed(range(dimensions))`, so ties in
+list `i` are ordered as in list `i+1`.  `topDown = false` is the pinned code (`for i in
+range(dimensions)`), kept to classify failures and for the regression examples. -/
+def preOrdersUp (cargo : List Vec) (m : Nat) : List (List Nat) :=
   let rec go (i : Nat) (fuel : Nat) (cur : List Nat) : List (List Nat) :=
     match fuel with
     | 0 => []
@@ -128,6 +140,18 @@ def preOrders (cargo : List Vec) (m : Nat) : List (List Nat) :=
       let s := sortByDim cargo i cur
       s :: go (i + 1) fuel s
   go 0 m (List.range cargo.length)
+
+def preOrdersDown (cargo : List Vec) (m : Nat) : List (List Nat) :=
+  let rec go (fuel : Nat) (cur : List Nat) (acc : List (List Nat)) : List (List Nat) :=
+    match fuel with
+    | 0 => acc
+    | i + 1 =>
+      let s := sortByDim cargo i cur
+      go i s (s :: acc)
+  go m (List.range cargo.length) []
+
+def preOrders (topDown : Bool) (cargo : List Vec) (m : Nat) : List (List Nat) :=
+  if topDown then preOrdersDown cargo m else preOrdersUp cargo m
 
 /-- `_MultiList.Node` -/
 structure Node where
@@ -157,7 +181,7 @@ def St.nodeOpt (st : St) : Option Nat → Node
 /-- the `if bounds[i] > node.cargo[i]: bounds[i] = node.cargo[i]` loop of `remove`/`reinsert`
 for `i in range(index)` -/
 def updBounds (d : Nat) (bounds : List Rat) (cargo : Vec) : List Rat :=
-  bounds.zipIdx.map (fun (b, i) => if i < d && decide (co cargo i < b) then co cargo i else b)
+  bounds.zipIdx.map (fun (b, i) => if decide (i < d) && decide (co cargo i < b) then co cargo i else b)
 
 /-- branch `dimIndex == 0`: `-sentinel.next[0].cargo[0]` -/
 def level0 (l0 : List Vec) : Rat :=
@@ -195,13 +219,40 @@ def removeLoop (d : Nat) : List Nat → List Nat → St → List Nat × List Nat
     else (q :: q' :: rest, removed, st)
   | rev, removed, st => (rev, removed, st)
 
-/-- `qArea[0] = 1; qArea[1:d+1] = [qArea[i] * -qCargo[i] for i in range(d)]`
-(the right-hand side is evaluated on the list as it is after `qArea[0] = 1`, before the slice
-is stored — it is not a running product) -/
-def areaInit (d : Nat) (area : List Rat) (cargo : Vec) : List Rat :=
+/-- the running products `1·(-c₀), 1·(-c₀)(-c₁), …` (`d` entries) -/
+def runProd (cargo : Vec) : Nat → Nat → Rat → List Rat
+  | _, 0, _ => []
+  | i, fuel + 1, acc =>
+    let a := acc * -(co cargo i)
+    a :: runProd cargo (i + 1) fuel a
+
+/-- the single-node initialisation of `q.area[0..d]`.
+
+`cum = true` (the code after fix `9767936`): `qArea[0] = 1; for i in range(d): qArea[i+1] =
+qArea[i] * -qCargo[i]`.
+`cum = false` is the pinned code `qArea[1:d+1] = [qArea[i] * -qCargo[i] for i in range(d)]`,
+whose right-hand side is evaluated on the list as it is after `qArea[0] = 1`, before the slice
+is stored — not a running product. -/
+def areaInit (cum : Bool) (d : Nat) (area : List Rat) (cargo : Vec) : List Rat :=
   let a0 := area.set 0 1
-  let rhs := (List.range d).map (fun i => a0.getD i 0 * -(co cargo i))
+  let rhs := if cum then runProd cargo 0 d 1
+             else (List.range d).map (fun i => a0.getD i 0 * -(co cargo i))
   a0.take 1 ++ rhs ++ a0.drop (d + 1)
+
+/-- `q.volume[d] = v` -/
+def setVolume (d q : Nat) (v : Rat) (st : St) : St :=
+  let n := st.node q
+  st.setNode q { n with volume := n.volume.set d v }
+
+/-- `q.area[d] = a` -/
+def setArea (d q : Nat) (a : Rat) (st : St) : St :=
+  let n := st.node q
+  st.setNode q { n with area := n.area.set d a }
+
+/-- `q.ignore = d` -/
+def setIgnore (d q : Nat) (st : St) : St :=
+  let n := st.node q
+  st.setNode q { n with ignore := d }
 
 /-- the tail shared by the first node and every re-inserted node:
 ```
@@ -213,19 +264,13 @@ else:
 ``` -/
 def settle (d : Nat) (rec : List Nat → St → Rat × St) (q : Nat) (prev : Option Nat)
     (active : List Nat) (hvol : Rat) (st : St) : St :=
-  let n := st.node q
-  let st := st.setNode q { n with volume := n.volume.set d hvol }
-  let n := st.node q
-  if d ≤ n.ignore then
-    st.setNode q { n with area := n.area.set d ((st.nodeOpt prev).area.getD d 0) }
+  let st := setVolume d q hvol st
+  if d ≤ (st.node q).ignore then
+    setArea d q ((st.nodeOpt prev).area.getD d 0) st
   else
-    let (a, st) := rec active st
-    let n := st.node q
-    let st := st.setNode q { n with area := n.area.set d a }
-    if a ≤ (st.nodeOpt prev).area.getD d 0 then
-      let n := st.node q
-      st.setNode q { n with ignore := d }
-    else st
+    let r := rec active st
+    let st := setArea d q r.1 r.2
+    if r.1 ≤ (st.nodeOpt prev).area.getD d 0 then setIgnore d q st else st
 
 /-- third loop: re-insert the removed nodes in increasing `cargo[d]`:
 ```
@@ -244,26 +289,36 @@ def reinsertLoop (d : Nat) (rec : List Nat → St → Rat × St) :
     let st := settle d rec p (some q) active hvol st
     reinsertLoop d rec rest p active hvol st
 
+/-- start of the sweep at the last node `q` that stays linked:
+```
+if length > 1: hvol = q.prev[d].volume[d] + q.prev[d].area[d] * (q.cargo[d] - q.prev[d].cargo[d])
+else:          qArea[0] = 1; qArea[1..d] = …          (hvol stays 0.0)
+``` -/
+def startNode (cum : Bool) (d : Nat) (q : Nat) (prev : Option Nat) (st : St) : Rat × St :=
+  let nq := st.node q
+  match prev with
+  | some qp =>
+    let np := st.node qp
+    (np.volume.getD d 0 + np.area.getD d 0 * (co nq.cargo d - co np.cargo d), st)
+  | none => (0, st.setNode q { nq with area := areaInit cum d nq.area nq.cargo })
+
+/-- `hvol -= q.area[d] * q.cargo[d]; return hvol` (`out` = last node, `hvol`, state) -/
+def finish (d : Nat) (out : Nat × Rat × St) : Rat × St :=
+  let nq := out.2.2.node out.1
+  (out.2.1 - nq.area.getD d 0 * co nq.cargo d, out.2.2)
+
 /-- the general branch (`dimIndex ≥ 2`) over list `dimIndex` = `l` (ids, increasing `cargo[d]`);
 `rec` is `hvRecursive(dimIndex - 1, ·, bounds)` on the ids currently linked in the lower lists -/
-def levelN (d : Nat) (rec : List Nat → St → Rat × St) (l : List Nat) (st : St) : Rat × St :=
+def levelN (cum : Bool) (d : Nat) (rec : List Nat → St → Rat × St) (l : List Nat) (st : St) : Rat × St :=
   let st := resetIgnore d st l
   match removeLoop d l.reverse [] st with
   | ([], _, st) => (0, st)    -- unreachable: `length == 0` returned earlier
   | (q :: keptRev, removed, st) =>
     let prev := keptRev.head?
-    let nq := st.node q
-    let (hvol, st) :=
-      match prev with
-      | some qp =>
-        let np := st.node qp
-        (np.volume.getD d 0 + np.area.getD d 0 * (co nq.cargo d - co np.cargo d), st)
-      | none => (0, st.setNode q { nq with area := areaInit d nq.area nq.cargo })
+    let s := startNode cum d q prev st
     let active := (q :: keptRev).reverse
-    let st := settle d rec q prev active hvol st
-    let (q, hvol, st) := reinsertLoop d rec removed q active hvol st
-    let nq := st.node q
-    (hvol - nq.area.getD d 0 * co nq.cargo d, st)
+    let st := settle d rec q prev active s.1 s.2
+    finish d (reinsertLoop d rec removed q active s.1 st)
 
 /-- list `i` of the multi-list restricted to the ids currently linked in it -/
 def linked (orders : List (List Nat)) (i : Nat) (active : List Nat) : List Nat :=
@@ -271,7 +326,7 @@ def linked (orders : List (List Nat)) (i : Nat) (active : List Nat) : List Nat :
 
 /-- `hvRecursive(dimIndex, length, bounds)`; `active` = ids linked in lists `0..dimIndex`
 (`length = active.length`) -/
-def hvRecursive (orders : List (List Nat)) : Nat → List Nat → St → Rat × St
+def hvRecursive (cum : Bool) (orders : List (List Nat)) : Nat → List Nat → St → Rat × St
   | 0, active, st =>
     if active.isEmpty then (0, st)
     else (level0 ((linked orders 0 active).map (fun i => (st.node i).cargo)), st)
@@ -280,18 +335,21 @@ def hvRecursive (orders : List (List Nat)) : Nat → List Nat → St → Rat × 
     else (sweep2 ((linked orders 1 active).map (fun i => (st.node i).cargo)), st)
   | d + 2, active, st =>
     if active.isEmpty then (0, st)
-    else levelN (d + 2) (hvRecursive orders (d + 1)) (linked orders (d + 2) active) st
+    else levelN cum (d + 2) (hvRecursive cum orders (d + 1)) (linked orders (d + 2) active) st
 
 /-- `_HyperVolume(ref).compute(front)`; `none` for zero objectives (the code then calls
-`hvRecursive(-1, …)`, which is outside the property) -/
-def compute (ref : Vec) (front : List Vec) : Option Rat :=
+`hvRecursive(-1, …)`, which is outside the property).  `cum`, `topDown`: see `areaInit`,
+`preOrders` (both `true` = the repaired code). -/
+def computeV (cum topDown : Bool) (ref : Vec) (front : List Vec) : Option Rat :=
   let m := ref.length
   if m = 0 then none else
   let rel := shift ref front
-  let orders := preOrders rel m
+  let orders := preOrders topDown rel m
   let st : St := ⟨rel.map (fun p => ⟨p, 0, List.replicate m 0, List.replicate m 0⟩),
                   List.replicate m negInf⟩
-  some (hvRecursive orders (m - 1) (List.range rel.length) st).1
+  some (hvRecursive cum orders (m - 1) (List.range rel.length) st).1
+
+def compute (ref : Vec) (front : List Vec) : Option Rat := computeV true true ref front
 
 /-- `pointset[nds]` -/
 def selectMask (pts : List Vec) (mask : List Bool) : List Vec :=
@@ -299,7 +357,11 @@ def selectMask (pts : List Vec) (mask : List Bool) : List Vec :=
 
 /-- `hypervolume(pointset, ref)`; `order` is what `np.argsort` returned inside
 `non_dominated_set` (environment input, as in C11) -/
+def hypervolumeCodeV (cum topDown : Bool) (pts : List Vec) (ref : Vec) (order : List Nat) : Option Rat :=
+  computeV cum topDown ref (selectMask pts (ndsMask pts order))
+
+/-- the repaired code -/
 def hypervolumeCode (pts : List Vec) (ref : Vec) (order : List Nat) : Option Rat :=
-  compute ref (selectMask pts (ndsMask pts order))
+  hypervolumeCodeV true true pts ref order
 
 end DH.Hypervolume
